@@ -165,6 +165,31 @@ def _check_live_types(case):
     return n, "ok", (kind, tuple(o[-1] for o in ops)), viols
 
 
+def _check_entry_forms(case):
+    """insertEntry is handed an entry OBJECT that was not made by calling Interval(...) / Point(...): namedtuple's own helpers `_replace` and `_make`
+    (the usual way to relabel or to build entries from rows) and plain tuples / lists, with a label that carries surrounding whitespace: the tier
+    stays well-formed (labels carry no surrounding whitespace) after the insertion, in every collision mode"""
+    kind, how, lab, mode = case
+    Interval, Point = tierops.Interval, tierops.Point
+    if kind == "I":
+        t = IT("t", [(0.0, 1.0, "a")], 0.0, 4.0)
+        row = (1.0 if mode == "error" else 0.5, 2.0, lab)
+        e = {"replace": lambda: Interval(row[0], row[1], "tmp")._replace(label=lab), "make": lambda: Interval._make(row), "tuple": lambda: row,
+             "list": lambda: list(row), "call": lambda: Interval(*row)}[how]()
+    else:
+        t = PT("t", [(1.0, "a")], 0.0, 4.0)
+        row = (2.0 if mode == "error" else 1.0, lab)
+        e = {"replace": lambda: Point(row[0], "tmp")._replace(label=lab), "make": lambda: Point._make(row), "tuple": lambda: row,
+             "list": lambda: list(row), "call": lambda: Point(*row)}[how]()
+    st, r, _ = call(t.insertEntry, e, mode, "silence")
+    if st == "exc" and not isinstance(r, PE):
+        return 1, "X", None, [Viol("non-praatio-exception:" + type(r).__name__, f"insertEntry(entry built by {how} with label {lab!r}, {mode!r}) raised {r!r}")]
+    w = wellformed(t)
+    if w:
+        return 1, "!", None, [Viol("ill-formed:" + w, f"after insertEntry(entry built by {how} with label {lab!r}, {mode!r}): {canon(t)}")]
+    return 1, "ok", (kind, how, mode), []
+
+
 def _live_type_cases():
     from fractions import Fraction as Fr
     vals = (0, Fr(4, 3), 2, Fr(7, 3), 3.0)
@@ -205,6 +230,14 @@ def parts(tier):
                              "triples for point tiers, applied in place to ONE live tier x collision modes: well-formed after every step; also intervals between two exact "
                              "values (int beyond 2**53, Fraction) that are different numbers and the same float",
                         bounds={}))
+
+    ps.append(InputPart("entries-built-through-namedtuple-helpers",
+                        lambda: ((k, how, lab, m) for k in ("I", "P") for how in ("replace", "make", "tuple", "list", "call")
+                                 for lab in ("dog\n", " x", "\ty ", "plain", " ") for m in ("error", "replace", "merge")),
+                        _check_entry_forms,
+                        rule="insertEntry with an entry made by Interval(...)._replace(label=...), Interval._make(row), a tuple, a list, or the constructor call "
+                             "(same for Point) x labels with surrounding whitespace x 3 collision modes (colliding for replace / merge): the tier is "
+                             "well-formed afterwards", bounds={}))
 
     V = (0.0, 0.5, 1.0, 2.0, 3.0)
     seeds_i = [("I", "t", 0.0, 3.0, ((0.0, 1.0, "a"), (1.0, 2.0, "b"))), ("I", "t", 0.0, 3.0, ((0.5, 2.0, "a"),)),
